@@ -12,7 +12,7 @@ def make(prop, profile_fn, config, post=None):
         prof = profile_fn(r, tier, index)
         prog = mailstore.generate(seed, prof)
         prog["props"] = [prop]
-        for k in ("compare", "liveness", "virtual_budget", "step_cap", "tag_stores", "uidexpunge_only", "probe_p"):
+        for k in ("compare", "liveness", "virtual_budget", "step_cap", "tag_stores", "uidexpunge_only", "probe_p", "seen_oracle"):
             if k in prof:
                 prog[k] = prof[k]
         if post is not None:
